@@ -18,14 +18,17 @@ type offer struct {
 }
 
 var c06Offers = []offer{
-	{"int", []string{"vi", "7", "fi()", "(vi + 1)", "si[0]", "len(vs)"}},
-	{"bool", []string{"vb", "true", "fb()", "(vi < 2)", "!vb", "sb[0]"}},
-	{"string", []string{"vs", `"lit"`, "fs()", `(vs + "x")`, "nil", "itoa(vi)", "vs[0]"}},
-	{"[]int", []string{"si", "[]int{1}", "fsi()"}},
+	{"int", []string{"vi", "7", "fi()", "(vi + 1)", "si[0]", "len(vs)", "(fi())"}},
+	{"bool", []string{"vb", "true", "fb()", "(vi < 2)", "!vb", "sb[0]", "(fb())"}},
+	{"string", []string{"vs", `"lit"`, "fs()", `(vs + "x")`, "nil", "itoa(vi)", "vs[0]", "((fs()))"}},
+	{"[]int", []string{"si", "[]int{1}", "fsi()", "(fsi())"}},
 	{"[]bool", []string{"sb", "[]bool{true}"}},
 	{"[]string", []string{"ss", `[]string{"a"}`}},
 	{"void", []string{"fv()"}},
 	{"multi", []string{"f2()"}},
+	// a parenthesised expression is one value: a grouped void or multi-value call is never one
+	{"void-grouped", []string{"(fv())", "((fv()))"}},
+	{"multi-grouped", []string{"(f2())"}},
 }
 
 const c06Prelude = `vi := 1
@@ -352,12 +355,12 @@ func c06Cells(thorough bool) []c06Cell {
 	}
 	for _, p := range c06Positions() {
 		for _, o := range c06Offers {
-			if contains(p.excluded, o.typ) {
+			if contains(p.excluded, o.typ) || contains(p.excluded, strings.TrimSuffix(o.typ, "-grouped")) {
 				continue
 			}
 			forms := o.forms
 			if p.varOnly {
-				if o.typ == "void" || o.typ == "multi" {
+				if strings.HasPrefix(o.typ, "void") || strings.HasPrefix(o.typ, "multi") {
 					continue
 				}
 				forms = forms[:1]
